@@ -608,6 +608,12 @@ func (rule *RuleAction) checkAction(meta *ActionMetadata, exec *ExecAction, desc
 		i := meta.Inputs[id]
 		if i.Required {
 			if _, ok := exec.Inputs[id]; !ok {
+				// The parser stores `with.args` and `with.entrypoint` in ExecAction.Args and
+				// ExecAction.Entrypoint instead of ExecAction.Inputs, but they are passed to the
+				// action as inputs like any other key of `with:`.
+				if id == "args" && exec.Args != nil || id == "entrypoint" && exec.Entrypoint != nil {
+					continue
+				}
 				ns := make([]string, 0, len(meta.Inputs))
 				for _, i := range meta.Inputs {
 					if i.Required {
